@@ -7695,11 +7695,11 @@ let rec bracket_match key = function
   if N.eqb k key then Some ((pos, ri), below) else bracket_match key below
 
 (** val bd16_run :
-    datasource -> bool -> bclass list -> nat -> nat -> (nat * n) list ->
-    ((n * nat) * nat) list -> bracket_pair list -> ((((n * nat) * nat)
-    list * bracket_pair list) * bool) res **)
+    datasource -> bool -> bclass list -> bclass list -> nat -> nat ->
+    (nat * n) list -> ((n * nat) * nat) list -> bracket_pair list ->
+    ((((n * nat) * nat) list * bracket_pair list) * bool) res **)
 
-let rec bd16_run ds legacy pc run_index start cis stack pairs =
+let rec bd16_run ds legacy oc pc run_index start cis stack pairs =
   match cis with
   | [] -> Ok ((stack, pairs), false)
   | p :: rest ->
@@ -7732,31 +7732,68 @@ let rec bd16_run ds legacy pc run_index start cis stack pairs =
         O))))))))))))))))))))))))))))))))))))))))))))))))))))))))))))))))))))))))))))))))))))))))))))))))))))))))))))))))))))))))))))))))))))))))))))))))))))))))))))))))))))))))))))))))))))))))))))))))))))))))))))))))))))))))))))))))))))))))))))))))))))))))))))))))))))))))))))))))))))))))))))))))))))))))))))))))))))))))))))))))))))))))))))))))))))))))))))))))))))))))))))))))))))))))))))))))))))))))))))))))))))))))))))))))))))))))))))))))))))))))))))))))))))))))))))))))))))))))))))))))))))))))))))))))))))))))))))))))))))))))))))
         pc actual) (fun c ->
       if negb (ceq c ON)
-      then bd16_run ds legacy pc run_index start rest stack pairs
-      else (match ds.ds_bracket ch with
-            | Some p0 ->
-              let (opening, is_open) = p0 in
-              if is_open
-              then if Nat.leb bracket_limit (length stack)
-                   then Ok ((stack, pairs), true)
-                   else bd16_run ds legacy pc run_index start rest
-                          (((opening, actual), run_index) :: stack) pairs
-              else (match bracket_match opening stack with
-                    | Some p1 ->
-                      let (p2, below) = p1 in
-                      let (pos, ri) = p2 in
-                      bd16_run ds legacy pc run_index start rest below
-                        (app pairs ({ bp_start = pos; bp_end = actual;
-                          bp_start_run = ri; bp_end_run = run_index } :: []))
-                    | None ->
-                      bd16_run ds legacy pc run_index start rest stack pairs)
-            | None -> bd16_run ds legacy pc run_index start rest stack pairs))
+      then bd16_run ds legacy oc pc run_index start rest stack pairs
+      else bind
+             (get (S (S (S (S (S (S (S (S (S (S (S (S (S (S (S (S (S (S (S (S
+               (S (S (S (S (S (S (S (S (S (S (S (S (S (S (S (S (S (S (S (S (S
+               (S (S (S (S (S (S (S (S (S (S (S (S (S (S (S (S (S (S (S (S (S
+               (S (S (S (S (S (S (S (S (S (S (S (S (S (S (S (S (S (S (S (S (S
+               (S (S (S (S (S (S (S (S (S (S (S (S (S (S (S (S (S (S (S (S (S
+               (S (S (S (S (S (S (S (S (S (S (S (S (S (S (S (S (S (S (S (S (S
+               (S (S (S (S (S (S (S (S (S (S (S (S (S (S (S (S (S (S (S (S (S
+               (S (S (S (S (S (S (S (S (S (S (S (S (S (S (S (S (S (S (S (S (S
+               (S (S (S (S (S (S (S (S (S (S (S (S (S (S (S (S (S (S (S (S (S
+               (S (S (S (S (S (S (S (S (S (S (S (S (S (S (S (S (S (S (S (S (S
+               (S (S (S (S (S (S (S (S (S (S (S (S (S (S (S (S (S (S (S (S (S
+               (S (S (S (S (S (S (S (S (S (S (S (S (S (S (S (S (S (S (S (S (S
+               (S (S (S (S (S (S (S (S (S (S (S (S (S (S (S (S (S (S (S (S (S
+               (S (S (S (S (S (S (S (S (S (S (S (S (S (S (S (S (S (S (S (S (S
+               (S (S (S (S (S (S (S (S (S (S (S (S (S (S (S (S (S (S (S (S (S
+               (S (S (S (S (S (S (S (S (S (S (S (S (S (S (S (S (S (S (S (S (S
+               (S (S (S (S (S (S (S (S (S (S (S (S (S (S (S (S (S (S (S (S (S
+               (S (S (S (S (S (S (S (S (S (S (S (S (S (S (S (S (S (S (S (S (S
+               (S (S (S (S (S (S (S (S (S (S (S (S (S (S (S (S (S (S (S (S (S
+               (S (S (S (S (S (S (S (S (S (S (S (S (S (S (S (S (S (S (S (S (S
+               (S (S (S (S (S (S (S (S (S (S (S (S (S (S (S (S (S (S (S (S (S
+               (S (S (S (S (S (S (S (S (S (S (S (S (S (S (S (S (S (S (S (S (S
+               (S (S (S (S (S (S (S (S (S (S (S (S (S (S (S (S (S (S (S (S (S
+               (S (S (S (S (S (S (S (S (S (S (S (S (S (S (S (S (S (S (S (S (S
+               (S (S (S (S (S (S (S (S (S (S (S (S (S (S (S (S (S (S (S (S (S
+               (S (S (S (S (S (S
+               O))))))))))))))))))))))))))))))))))))))))))))))))))))))))))))))))))))))))))))))))))))))))))))))))))))))))))))))))))))))))))))))))))))))))))))))))))))))))))))))))))))))))))))))))))))))))))))))))))))))))))))))))))))))))))))))))))))))))))))))))))))))))))))))))))))))))))))))))))))))))))))))))))))))))))))))))))))))))))))))))))))))))))))))))))))))))))))))))))))))))))))))))))))))))))))))))))))))))))))))))))))))))))))))))))))))))))))))))))))))))))))))))))))))))))))))))))))))))))))))))))))))))))))))))))))))))))))))))))))))))))))))))))
+               oc actual) (fun o ->
+             if (&&) (removed_by_x9 o) (negb legacy)
+             then bd16_run ds legacy oc pc run_index start rest stack pairs
+             else (match ds.ds_bracket ch with
+                   | Some p0 ->
+                     let (opening, is_open) = p0 in
+                     if is_open
+                     then if Nat.leb bracket_limit (length stack)
+                          then Ok ((stack, pairs), true)
+                          else bd16_run ds legacy oc pc run_index start rest
+                                 (((opening, actual), run_index) :: stack)
+                                 pairs
+                     else (match bracket_match opening stack with
+                           | Some p1 ->
+                             let (p2, below) = p1 in
+                             let (pos, ri) = p2 in
+                             bd16_run ds legacy oc pc run_index start rest
+                               below
+                               (app pairs ({ bp_start = pos; bp_end = actual;
+                                 bp_start_run = ri; bp_end_run =
+                                 run_index } :: []))
+                           | None ->
+                             bd16_run ds legacy oc pc run_index start rest
+                               stack pairs)
+                   | None ->
+                     bd16_run ds legacy oc pc run_index start rest stack pairs)))
 
 (** val bd16_runs :
-    enc -> datasource -> bool -> n list -> bclass list -> nat -> run list ->
-    ((n * nat) * nat) list -> bracket_pair list -> bracket_pair list res **)
+    enc -> datasource -> bool -> n list -> bclass list -> bclass list -> nat
+    -> run list -> ((n * nat) * nat) list -> bracket_pair list ->
+    bracket_pair list res **)
 
-let rec bd16_runs e ds legacy text pc run_index runs stack pairs =
+let rec bd16_runs e ds legacy text oc pc run_index runs stack pairs =
   match runs with
   | [] -> Ok pairs
   | r :: rest ->
@@ -7788,13 +7825,13 @@ let rec bd16_runs e ds legacy text pc run_index runs stack pairs =
         O)))))))))))))))))))))))))))))))))))))))))))))))))))))))))))))))))))))))))))))))))))))))))))))))))))))))))))))))))))))))))))))))))))))))))))))))))))))))))))))))))))))))))))))))))))))))))))))))))))))))))))))))))))))))))))))))))))))))))))))))))))))))))))))))))))))))))))))))))))))))))))))))))))))))))))))))))))))))))))))))))))))))))))))))))))))))))))))))))))))))))))))))))))))))))))))))))))))))))))))))))))))))))))))))))))))))))))))))))))))))))))))))))))))))))))))))))))))))))))))))))))))))))))))))))))))))))))))))))))))
         e text s en) (fun sub0 ->
       bind
-        (bd16_run ds legacy pc run_index s (t_char_indices e sub0) stack
+        (bd16_run ds legacy oc pc run_index s (t_char_indices e sub0) stack
           pairs) (fun x ->
         let (p, stopped) = x in
         let (stack', pairs') = p in
         if (&&) stopped (negb legacy)
         then Ok pairs'
-        else bd16_runs e ds legacy text pc (S run_index) rest stack' pairs'))
+        else bd16_runs e ds legacy text oc pc (S run_index) rest stack' pairs'))
 
 (** val insert_pair :
     bracket_pair -> bracket_pair list -> bracket_pair list **)
@@ -7810,12 +7847,12 @@ let sort_pairs l =
   fold_left (fun acc p -> insert_pair p acc) l []
 
 (** val identify_bracket_pairs_gen :
-    enc -> datasource -> bool -> n list -> irs -> bclass list -> bracket_pair
-    list res **)
+    enc -> datasource -> bool -> n list -> irs -> bclass list -> bclass list
+    -> bracket_pair list res **)
 
-let identify_bracket_pairs_gen e ds legacy text sq pc =
-  bind (bd16_runs e ds legacy text pc O sq.irs_runs [] []) (fun pairs -> Ok
-    (sort_pairs pairs))
+let identify_bracket_pairs_gen e ds legacy text sq oc pc =
+  bind (bd16_runs e ds legacy text oc pc O sq.irs_runs [] []) (fun pairs ->
+    Ok (sort_pairs pairs))
 
 (** val n0_scan :
     bclass list -> bclass -> bclass -> nat -> nat list -> bool -> bool ->
@@ -8614,7 +8651,8 @@ let resolve_neutral_gen e ds legacy text sq levels oc pc =
         levels (fst r0)) (fun l0 ->
       let ecls = level_class l0 in
       let not_e = if ceq ecls L then R else L in
-      bind (identify_bracket_pairs_gen e ds legacy text sq pc) (fun pairs ->
+      bind (identify_bracket_pairs_gen e ds legacy text sq oc pc)
+        (fun pairs ->
         bind
           (n0_pairs e
             (if legacy
